@@ -863,3 +863,87 @@ pub(crate) fn h_strict_vs_nonstrict() {
         _ => {}
     }
 }
+
+// ------------------------------------------------------------------ C14: sort() on a module that populates every list
+
+const ALL_KINDS_T: &str = "ASAP2_VERSION 1 71 /begin PROJECT p \"\" /begin MODULE m \"\"
+/begin UNIT @b \"\" \"\" DERIVED /end UNIT /begin UNIT @a \"\" \"\" DERIVED /end UNIT
+/begin TRANSFORMER @b \"v\" \"x\" \"y\" 1 ON_CHANGE NO_INVERSE_TRANSFORMER /end TRANSFORMER /begin TRANSFORMER @a \"v\" \"x\" \"y\" 1 ON_CHANGE NO_INVERSE_TRANSFORMER /end TRANSFORMER
+/begin RECORD_LAYOUT @b /end RECORD_LAYOUT /begin RECORD_LAYOUT @a /end RECORD_LAYOUT
+/begin GROUP @b \"\" /end GROUP /begin GROUP @a \"\" /end GROUP
+/begin FUNCTION @b \"\" /end FUNCTION /begin FUNCTION @a \"\" /end FUNCTION
+/begin FRAME @b \"\" 1 2 /end FRAME /begin FRAME @a \"\" 1 2 /end FRAME
+/begin TYPEDEF_BLOB @tbb \"\" 4 /end TYPEDEF_BLOB /begin TYPEDEF_BLOB @tba \"\" 4 /end TYPEDEF_BLOB
+/begin TYPEDEF_AXIS @tab \"\" NO_INPUT_QUANTITY rl 0 NO_COMPU_METHOD 2 0 255 /end TYPEDEF_AXIS /begin TYPEDEF_AXIS @taa \"\" NO_INPUT_QUANTITY rl 0 NO_COMPU_METHOD 2 0 255 /end TYPEDEF_AXIS
+/begin TYPEDEF_MEASUREMENT @tmb \"\" UBYTE NO_COMPU_METHOD 0 0 0 255 /end TYPEDEF_MEASUREMENT /begin TYPEDEF_MEASUREMENT @tma \"\" UBYTE NO_COMPU_METHOD 0 0 0 255 /end TYPEDEF_MEASUREMENT
+/begin TYPEDEF_CHARACTERISTIC @tcb \"\" VALUE rl 0 NO_COMPU_METHOD 0 255 /end TYPEDEF_CHARACTERISTIC /begin TYPEDEF_CHARACTERISTIC @tca \"\" VALUE rl 0 NO_COMPU_METHOD 0 255 /end TYPEDEF_CHARACTERISTIC
+/begin TYPEDEF_STRUCTURE @tsb \"\" 4 /end TYPEDEF_STRUCTURE /begin TYPEDEF_STRUCTURE @tsa \"\" 4 /end TYPEDEF_STRUCTURE
+/begin COMPU_VTAB_RANGE @vrb \"\" 1 1 2 \"x\" /end COMPU_VTAB_RANGE /begin COMPU_VTAB_RANGE @vra \"\" 1 1 2 \"x\" /end COMPU_VTAB_RANGE
+/begin COMPU_VTAB @cvb \"\" TAB_VERB 1 1 \"x\" /end COMPU_VTAB /begin COMPU_VTAB @cva \"\" TAB_VERB 1 1 \"x\" /end COMPU_VTAB
+/begin COMPU_TAB @ctb \"\" TAB_INTP 1 1 1 /end COMPU_TAB /begin COMPU_TAB @cta \"\" TAB_INTP 1 1 1 /end COMPU_TAB
+/begin COMPU_METHOD @b \"\" IDENTICAL \"%6.3\" \"\" /end COMPU_METHOD /begin COMPU_METHOD @a \"\" IDENTICAL \"%6.3\" \"\" /end COMPU_METHOD
+/begin BLOB @blb \"\" 0 4 /end BLOB /begin BLOB @bla \"\" 0 4 /end BLOB
+/begin INSTANCE @inb \"\" tsa 0 /end INSTANCE /begin INSTANCE @ina \"\" tsa 0 /end INSTANCE
+/begin AXIS_PTS @apb \"\" 0 NO_INPUT_QUANTITY rl 0 NO_COMPU_METHOD 2 0 255 /end AXIS_PTS /begin AXIS_PTS @apa \"\" 0 NO_INPUT_QUANTITY rl 0 NO_COMPU_METHOD 2 0 255 /end AXIS_PTS
+/begin MEASUREMENT @msb \"\" UBYTE NO_COMPU_METHOD 0 0 0 255 /end MEASUREMENT /begin MEASUREMENT @msa \"\" UBYTE NO_COMPU_METHOD 0 0 0 255 /end MEASUREMENT
+/begin CHARACTERISTIC @chb \"\" VALUE 0 rl 0 NO_COMPU_METHOD 0 255 /end CHARACTERISTIC /begin CHARACTERISTIC @cha \"\" VALUE 0 rl 0 NO_COMPU_METHOD 0 255 /end CHARACTERISTIC
+/end MODULE /end PROJECT";
+
+fn tag_of(line: &str) -> Option<(String, String)> {
+    // "/begin KIND name ..." at the start of a line of the written text -> (KIND, name)
+    let l = line.trim_start();
+    if let Some(rest) = l.strip_prefix("/begin ") {
+        let mut it = rest.split_whitespace();
+        let kind = it.next()?.to_string();
+        let name = it.next().unwrap_or("").to_string();
+        return Some((kind, name));
+    }
+    None
+}
+
+/// every list of the module holds two elements in reverse alphabetical order, and the kinds appear in reverse canonical order
+pub(crate) fn h_sort_all_kinds() {
+    let (mut file, _) = load_from_string(&expand(ALL_KINDS_T, "", ""), None, false).unwrap();
+    let before = file.clone();
+    file.sort();
+    {
+        let m = &file.project.module[0];
+        let b = &before.project.module[0];
+        contains_all(m, b);
+        for e in b.group.iter() { vrt_soft_check(m.group.get(e.get_name()) == Some(e), "C14 GROUP content unchanged by sort"); }
+        for e in b.function.iter() { vrt_soft_check(m.function.get(e.get_name()) == Some(e), "C14 FUNCTION content unchanged by sort"); }
+        for e in b.blob.iter() { vrt_soft_check(m.blob.get(e.get_name()) == Some(e), "C14 BLOB content unchanged by sort"); }
+        for e in b.typedef_blob.iter() { vrt_soft_check(m.typedef_blob.get(e.get_name()) == Some(e), "C14 TYPEDEF_BLOB content unchanged by sort"); }
+        for e in b.compu_vtab_range.iter() { vrt_soft_check(m.compu_vtab_range.get(e.get_name()) == Some(e), "C14 COMPU_VTAB_RANGE content unchanged by sort"); }
+        vrt_check(m.objects().len() == 10 && m.typedefs().len() == 10 && m.compu_tabs().len() == 6 && m.unit.len() == 2 && m.group.len() == 2 && m.function.len() == 2
+            && m.frame.len() == 2 && m.transformer.len() == 2 && m.record_layout.len() == 2 && m.compu_method.len() == 2, "C14 each list holds exactly the same elements after sort()");
+    }
+    let out = file.write_to_string();
+    // module-level blocks of the written file: grouped by kind, alphabetical within a kind
+    let mut kinds_seen: Vec<String> = Vec::new();
+    let mut last_kind = String::new();
+    let mut last_name = String::new();
+    let mut n_blocks = 0;
+    for line in out.lines() {
+        if let Some((kind, name)) = tag_of(line) {
+            if kind == "PROJECT" || kind == "MODULE" { continue; }
+            n_blocks += 1;
+            if kind != last_kind {
+                vrt_check(!kinds_seen.contains(&kind), "C14 the written file lists the elements grouped by kind");
+                kinds_seen.push(kind.clone());
+                last_kind = kind;
+            } else {
+                vrt_check(last_name.as_str() < name.as_str(), "C14 the written file lists the elements of a kind alphabetically by name");
+            }
+            last_name = name;
+        }
+    }
+    vrt_check(n_blocks == 40 && kinds_seen.len() == 20, "C14 the written file contains every element of every kind");
+    let (reloaded, _) = load_from_string(&out, None, false).unwrap();
+    vrt_check(reloaded == file, "C14 loading the sorted output yields the same model in the same order");
+    let out2 = reloaded.write_to_string();
+    vrt_check(out2 == out, "C14 the sorted output is stable under reload and write");
+    let once = file.clone();
+    file.sort();
+    vrt_check(file == once && file.write_to_string() == out, "C14 sorting a second time changes nothing");
+}
